@@ -126,6 +126,16 @@ CHECKS = {
             'Repair layer: 84 tripeptides of charmm blocks with mutation / terminal-modification requests through AnnotateMutMod + RepairGraph: '
             'the named residue ends up with exactly the requested atoms and name, nothing leaks to other residues or into the force field.',
             'Systems of <=2 molecules x <=4 residues; resid together with nter/cter, empty specifications and unmatched+unknown requests are not generated.', '§4 C19'),
+    'C04': ('C', 'deviation-bounded exhaustive exploration of residue presentations (0, 1, 2 deviations from every shipped block) through the real RepairGraph, absolute embedding oracle',
+            'model_checking',
+            'Every block of amber (quick) and additionally gromos, the charmm amino-acid blocks and a seed-rotated slice of charmm small '
+            'molecules (thorough) is presented canonically and in EVERY presentation one elementary deviation away (all name swaps, all order '
+            'swaps, every rename, every non-cut deletion, every attachment of H/O/C to a heavy atom; all name permutations for blocks of <= 7 '
+            'atoms); thorough adds all pairs of deviations for amber blocks of <= 10-12 atoms and the interacting pairs for larger ones. After '
+            'the real RepairGraph the recognised atoms must carry unique canonical names forming an injective, element-preserving, induced-bond-'
+            'preserving map onto the block, every block atom must be present, and the number of unrecognised atoms must equal the number of '
+            'attached atoms (the largest possible match is the whole block by construction).',
+            'At most 2 deviations from a shipped block; elements follow the library\'s first-letter rule.', '§4 C04'),
     'C07': ('A+D', 'explicit-state BFS over deferred-writer histories with a dict file-system model; exhaustive crash-point/torn-write enumeration of every finalisation; audit-hook monitor over all library writers; full product of a CLI run alphabet through the script\'s own entry() bound to real sub-processes',
             'model_checking',
             'Four layers. (1) every enabled operation (open w/a/r+/wb incl. re-opens, files appearing from outside, write, close) in every '
